@@ -100,3 +100,14 @@ Proof.
     + intros kv [E|[E|[E|[]]]]; subst; cbn [fst]; lia.
   - vm_compute. reflexivity.
 Qed.
+
+(* Tie B (pins): the functions this property's models transcribe read, statement by statement, as they did when the models
+   were written against them; Gen/SourcesGen.v is regenerated from /repo on every run (translator/pins.py). *)
+From GL Require Import Gen.SourcesGen Model.Sources Proofs.PinC03.
+Theorem C03_modelled_functions_are_the_source's :
+  gen_src_chunk_groupby_args = src_chunk_groupby_args /\
+  gen_src_reduce_array_pair = src_reduce_array_pair /\
+  gen_src_combine_chunk_results = src_combine_chunk_results /\
+  gen_src_apply_across_chunked_keys = src_apply_across_chunked_keys.
+Proof. exact (conj pin_chunk_groupby_args (conj pin_reduce_array_pair (conj pin_combine_chunk_results pin_apply_across_chunked_keys))). Qed.
+Print Assumptions C03_modelled_functions_are_the_source's.
